@@ -653,9 +653,10 @@ static WORKER_BROKEN: AtomicBool = AtomicBool::new(false);
 type WSink = WorkerSink<ItemEntry, Rec>;
 type WGuard = metrique_aggregation::sink::CloseAndMergeOnDrop<Item, WSink>;
 
-fn interval_of(mode: u128) -> Duration {
+/// mode 0 = "the interval never elapses": an hour, or the ways of saying "never" (chosen by the size of the case)
+fn interval_of(mode: u128, salt: usize) -> Duration {
     match mode {
-        0 => Duration::from_secs(3600),
+        0 => [Duration::from_secs(3600), Duration::MAX, Duration::from_secs(u64::MAX)][salt % 3],
         1 => Duration::ZERO,
         _ => Duration::from_micros(300),
     }
@@ -693,7 +694,7 @@ fn exec_worker_det(case: &Sx, out_fail: &mut Vec<String>) -> Sx {
     let mut leaves = vec![];
     let tree = build_tree(case.arg(1), &mut leaves, &None);
     *shared.leaves.lock().unwrap() = leaves;
-    let sink: WSink = WorkerSink::new(Rec { inner: tree, shared: shared.clone() }, interval_of(mode));
+    let sink: WSink = WorkerSink::new(Rec { inner: tree, shared: shared.clone() }, interval_of(mode, case.arg(3).list().len()));
     let mut handles: Vec<WSink> = vec![sink];
     let mut guards: Vec<Option<WGuard>> = vec![];
     let mut acks = 0u64;
@@ -780,7 +781,7 @@ fn exec_worker_thr(case: &Sx, out_fail: &mut Vec<String>) -> Sx {
     let mut leaves = vec![];
     let tree = build_tree(case.arg(1), &mut leaves, &None);
     *shared.leaves.lock().unwrap() = leaves;
-    let sink: WSink = WorkerSink::new(Rec { inner: tree, shared: shared.clone() }, interval_of(mode));
+    let sink: WSink = WorkerSink::new(Rec { inner: tree, shared: shared.clone() }, interval_of(mode, case.arg(3).list().len()));
     let scripts: Vec<Sx> = case.arg(3).list().to_vec();
     let start = Arc::new(std::sync::Barrier::new(scripts.len()));
     let mut joins = vec![];
